@@ -72,7 +72,8 @@ TEXT = {
               'oracle for malformed strings'},
     'C09': {'text': 'Exploration: generated (N, protocol, codec, kind, side, position) with probes built to exact encoded sizes N−1/N/N+1/2N/≫N, compression bombs (wire '
          '≤ N < decompressed), fat-wire messages (decompressed ≤ N < wire), and lying length prefixes; oracle is a non-delivery model plus the refusal code. A '
-         'separate enumeration measures allocation for N ∈ {4 KiB, 64 KiB, 1 MiB} against bombs of 64N+32 MiB and lying prefixes up to 2^32−1.',
+         'separate enumeration measures allocation for N ∈ {4 KiB, 64 KiB, 1 MiB} against bombs of 64N+32 MiB, lying prefixes up to 2^32−1 and lying Content-Lengths; bombs also come '
+         'through a user-registered run-length codec with an unbounded compression ratio.',
  'design_ref': 'DESIGN.md §5 C09',
  'note': "Trusted: refwire-built frames with exact sizes; the harness's own gzip/zlib/deflate/toy compressors. N = 0 (unlimited) and the buffering of non-200 "
          'error bodies are outside the domain.',
@@ -119,7 +120,7 @@ TEXT = {
  'technique': 'property-based testing (rapid): differential testing against an independent strict reference implementation of the three protocols, in both '
               'directions'},
     'C14': {'text': 'Fault enumeration over schedules: for fixed representative programs every single yield point (and, thorough, every pair) of the duplex call receives '
-         'a virtual delay; rapid adds program pairs from five families (closing, ping-pong, handler exits early while the client keeps sending, cancel '
+         'a virtual delay; rapid adds program pairs from seven families (closing, ping-pong, handler exits early while the client keeps sending — also over a transport that keeps swallowing request bytes —, a response message above the client read limit followed by more, a peer answering a single-response call with a stream, cancel '
          'followed by arbitrary operations, typed calls) × 3 protocols × {in-memory transport, real net/http h2c / HTTP/1.1} with 0..2 random delays. '
          "Everything runs in a synctest bubble, so 'every call returns' (deadlock detection) and 'no library goroutine remains' (stack inspection after a 30 s "
          'virtual settle period) are decided, not guessed from wall-clock timeouts.',
@@ -141,7 +142,10 @@ TEXT = {
          'one shared handler set and one shared client per configuration, on the in-memory transport and on real loopback sockets (h2c); bidi calls send and '
          'receive from separate goroutines. Any cross-talk, stale pooled buffer (poison hook) or corrupted retained value shows up as a payload/header/error '
          'mismatch against the result computed for the call alone; a data race whose stack includes a connect-go frame is reported as a violation with the '
-         'plan and the race log as artefacts.',
+         'plan and the race log as artefacts. Each plan ends with a concurrent burst of large compressed calls and a storm of 640 small calls (incl. bidi calls '
+         'the handler fails while the sender goroutine is busy; some handlers return one shared sentinel error value). A second sub-check (retained-values) '
+         'drives 2..6 calls through one client against scripted, partly defective responses and compares every error/header/trailer/message object '
+         'handed to the application with its own snapshot after the later calls.',
  'design_ref': 'DESIGN.md §5 C13',
  'note': 'Binary built with -race -tags verif. A race report whose stacks are entirely harness frames is a harness bug (exit 2). Watchdog expiry is exit 2, '
          'never a violation.',
